@@ -42,12 +42,12 @@ CLAIMED = {
         design='5/C04'),
     'C05': dict(
         text='Theorems over ALL lists of lines A, all B, all fuels and every token configuration without a BlankLine token, about the dispatch loop and readers of '
-             'the parser model: (1) if every top-level block of A is of a closed kind, or a code / fence / HTML block after which A goes on, or a list ended by a line of A (computable flags; any start state), the blocks of A + blank line + B are the blocks of A followed by those of B read from the state A leaves, '
+             'the parser model: (1) if A\'s LAST block is closed (the property\'s hypothesis), no top-level block of A is a link-definition block and every top-level list of A is ended by a line of A (computable; any start state), the blocks of A + blank line + B are the blocks of A followed by those of B read from the state A leaves - the flags for code / fence / HTML blocks are derived from the closed last block (a line of white space starts no block: a `needs a non-space character` analysis of the regex engine); '
              '(2) tokenizing the same lines from another start line shifts every recorded line number, nested ones included, by exactly the difference, (3) a blank '
              'line is skipped by the loop. The law at the property\'s full strength (only the LAST block of A closed), whole pipeline with inline phase and line '
              'numbers, is kernel-checked on 781 x 13 pairs (bound in the theorem) and decided beyond that on the implementation by the oracle; model tied to the '
              'code by X-doc on the combined texts.',
-        note='PARTIAL in one respect: that a closed last block implies the computable flags of the theorem is not derived (kernel sweep of the full statement + oracle). Trusted: Coq kernel incl. vm_compute, extraction, translators, '
+        note='PARTIAL in one respect: for top-level LISTS of A the theorem keeps a computable flag (the list is ended by a line of A) instead of deriving it from the closed last block (kernel sweep of the full statement + oracle cover it). Trusted: Coq kernel incl. vm_compute, extraction, translators, '
              'the hand-written parser model (correspondence-checked). Scratch-state leakage between readers (the property\'s concern) cannot exist in the pure model: that '
              'the implementation behaves like the model on adjacent blocks is exactly what X-doc and the law oracle check.',
         technique='Coq proof (induction over the dispatch loop; look-ahead lemmas for every reader) + bounded kernel sweep + extracted-model correspondence + law oracle',
